@@ -18,7 +18,7 @@ from ..common.labels import IntegratorLabel
 from ..common.logger import resonaateLogError, resonaateLogWarning
 from ..physics.bodies import Earth
 from .dynamics_base import Dynamics, DynamicsErrorFlag
-from .integration_events.finite_thrust import ScheduledFiniteThrust
+from .integration_events.finite_thrust import ScheduledFiniteThrust, ScheduledFiniteThrustEnd
 from .integration_events.scheduled_impulse import ScheduledImpulse
 
 # Type Checking Imports
@@ -104,6 +104,12 @@ class Celestial(Dynamics, metaclass=ABCMeta):
                     and event.start_time < initial_time < event.end_time
                 ):
                     self.finite_thrust = event.getStateChangeCallback(initial_time)
+            # Interrupt integration where a finite thrust ends as well, not only where it starts
+            events.extend(
+                event.end_event
+                for event in scheduled_events
+                if isinstance(event, ScheduledFiniteThrust)
+            )
 
         return events
 
@@ -132,7 +138,7 @@ class Celestial(Dynamics, metaclass=ABCMeta):
                     if t_events[event_index].size > 0
                     else simultaneous_impulses[event_index]
                 )
-                if isinstance(event, ScheduledFiniteThrust):
+                if isinstance(event, (ScheduledFiniteThrust, ScheduledFiniteThrustEnd)):
                     self.finite_thrust = event.getStateChangeCallback(current_time)
                 else:
                     current_state += event.getStateChange(current_time, current_state[:, 0])[
